@@ -14,10 +14,14 @@ def sh(cmd, **kw):
 def main():
     for arg in sys.argv[1:]:
         pid, _, only = arg.partition(":")
-        src = f"/tmp/mut-{pid}-out"
+        rnd = ""
+        if "@" in pid:
+            pid, rnd = pid.split("@")          # C05@2 = second round of seeds: /tmp/mut2-C05-out → seeded/C05-r2m<k>
+        src = f"/tmp/mut{rnd}-{pid}-out"
+        tag = f"r{rnd}m" if rnd else "m"
         for k in ((int(only),) if only else (1, 2, 3, 4, 5)):
             diff = f"{src}/m{k}.diff"
-            out = f"{VERIF}/seeded/{pid}-m{k}"
+            out = f"{VERIF}/seeded/{pid}-{tag}{k}"
             if not os.path.exists(diff):
                 # re-run of a seed recorded earlier
                 if not os.path.exists(f"{out}/patch.diff"):
